@@ -34,6 +34,10 @@ type RecReplayer struct {
 	ReplayFault map[int]string
 	// OnReplay, if set, is called inside Replay before delegating (virtual latency etc.).
 	OnReplay func(sub string)
+	// PutLatency / ReplayLatency: time slept inside the call (virtual inside a bubble), so that
+	// other operations can land while Joe is inside the replayer.
+	PutLatency    time.Duration
+	ReplayLatency time.Duration
 
 	mu      sync.Mutex
 	log     []RLog
@@ -58,6 +62,10 @@ func (r *RecReplayer) Put(m *sse.Message, topics []string) (*sse.Message, error)
 	e := RLog{Kind: "put", Token: Token(m), Topics: append([]string(nil), topics...), Start: start, ArgIDIn: m.ID.String(), VTime: time.Now()}
 	fault := r.PutFault[n]
 	e.Fault = fault
+	if r.PutLatency > 0 {
+		time.Sleep(r.PutLatency)
+		e.VTime = time.Now() // the instant the wrapped replayer sees
+	}
 	var out *sse.Message
 	var err error
 	switch fault {
@@ -107,6 +115,10 @@ func (r *RecReplayer) Replay(sub sse.Subscription) error {
 	if r.OnReplay != nil {
 		r.OnReplay(name)
 	}
+	if r.ReplayLatency > 0 {
+		time.Sleep(r.ReplayLatency)
+	}
+	e.VTime = time.Now() // the instant the wrapped replayer sees
 	var err error
 	switch fault {
 	case "panic":
